@@ -12,9 +12,9 @@ ASSUME = [
 ]
 
 
-def consts(nt, maxops, maxenv, ops):
+def consts(nt, maxops, maxenv, ops, env=ENV, retry=False):
     return {"NT": str(nt), "INF": "99", "Ops": ops, "MaxOps": str(maxops), "MaxEnv": str(maxenv),
-            "EnvKinds": ENV}
+            "EnvKinds": env, "Retry": "TRUE" if retry else "FALSE"}
 
 
 def cmp(keys):
@@ -32,6 +32,9 @@ EVENT = Family(
     configs=[
         ModelCfg("e-n2o2e1", consts(2, 2, 1, EOPS), emit=True, check=False),
         ModelCfg("e-n3o2e2", consts(3, 2, 2, EOPS), simulate=800),
+        # clients survive the cancellation of their scope (move_on_after pattern) and wait again
+        ModelCfg("e-n2o3e2-retry", consts(2, 3, 2, '{"wait", "set"}', env='{"cancel"}', retry=True), emit=True,
+                 replay_kw={"retry": True}),
         ModelCfg("e-n4o2e3", consts(4, 2, 3, EOPS), tiers=("thorough",), check=False, simulate=5000),
     ],
     assumptions=ASSUME,
@@ -49,6 +52,11 @@ COND = Family(
         # three waiters and a notifier; one cancellation (pass-on must go to the NEXT waiter)
         ModelCfg("c-n4o2e1-w", consts(4, 2, 1, '{"acq", "wait", "notify1"}'), emit=True, check=False,
                  max_scenarios=8000),
+        # clients survive the cancellation of their scope and carry on (wait again, notify, re-acquire)
+        ModelCfg("c-n2o4e2-retry", consts(2, 4, 2, '{"acq", "wait", "notify1"}', env='{"cancel"}', retry=True),
+                 emit=True, check=False, replay_kw={"retry": True}, max_scenarios=4000),
+        ModelCfg("c-n3o4e2-retry", consts(3, 4, 2, COPS, retry=True), simulate=1200, check=False,
+                 replay_kw={"retry": True}),
         ModelCfg("c-n3o3e1", consts(3, 3, 1, '{"acq", "wait", "notify1", "notifyall"}'),
                  tiers=("quick",), simulate=1500),
         ModelCfg("c-n3o3e2", consts(3, 3, 2, COPS), tiers=("thorough",), simulate=8000),
